@@ -339,6 +339,19 @@ def blame_wrong_value(term, runner_fn):
     ops = [x for x in T.subterms(culprit) if x[0] not in ("s",)]
     ops = [x[1] if x[0] == "a" else x for x in ops]
     descr = [operand_descr(o) for o in ops]
+    # an operand whose dtype pytato infers differently from NumPy (a C03 matter) changes the
+    # meaning of the consumer: attribute the wrong value to that deviation
+    for o in ops:
+        if T.is_scalar_term(o) or o[0] in ("ph", "dw", "dwv", "dwalias"):
+            continue
+        try:
+            ptdt = np.dtype(T.PtBuilder()(o).dtype)
+            npdt = T.np_shape_dtype(o)[1]
+        except Exception:  # noqa: BLE001
+            continue
+        if ptdt != npdt:
+            return {"kind": "wrong-value", "cause": "operand-dtype-deviates-from-numpy",
+                    "operand": _root_sig(o), "numpy": npdt.kind, "pytato": ptdt.kind}
     if "boolarith" in descr:
         return {"kind": "wrong-value", "cause": "bool-arithmetic-operand"}
     if culprit[0] == "logic" and any(d in ("py:f", "np:f", "py:c", "np:c") for d in descr):
